@@ -20,13 +20,14 @@ namespace DirectVerif.Train
 open DirectVerif.Ckpt
 
 /-- model / loss / optimiser, all abstract -/
-structure Ops (P O G B L : Type) where
+structure Ops (P O G B L Sc : Type) where
   grad : P → B → G              -- what `backward` adds to `.grad` for parameters θ and a batch
   add : G → G → G
   zero : G                      -- `.grad` after `zero_grad()` (None / 0)
   divk : Nat → G → G            -- `parameter.grad.div_(gradient_steps)`
   clip : G → G                  -- `clip_grad_norm_`
   opt : L → P → O → G → P × O   -- `optimizer.step()` at learning rate `lr`
+  supd : Sc → Sc := fun s => s  -- `scaler.update()` (the identity for the disabled scaler of a CPU run)
 
 structure Cfg where
   k : Nat                -- `cfg.training.gradient_steps`
@@ -45,6 +46,12 @@ structure St (P O G Sc : Type) where
 
 inductive Ev where
   | backward | divGrad | clip | optStep | scalerUpdate | zeroGrad | schedStep
+deriving DecidableEq, Repr
+
+/-- whose gradients `div_` / `clip_grad_norm_` act on -/
+inductive ParamScope where
+  | mainOnly     -- `self.model.parameters()` (pinned tree)
+  | allModels    -- `self.model` and every model in `self.models`
 deriving DecidableEq, Repr
 
 inductive Guard where
@@ -119,47 +126,47 @@ def evalGuard (cfg : Cfg) (it : Nat) : Guard → Bool
 section machine
 variable {P O G B L Sc : Type}
 
-def applyEv (ops : Ops P O G B L) (lrAt : Nat → L) (cfg : Cfg) (b : B) (s : St P O G Sc) : Ev → St P O G Sc
+def applyEv (ops : Ops P O G B L Sc) (lrAt : Nat → L) (cfg : Cfg) (b : B) (s : St P O G Sc) : Ev → St P O G Sc
   | .backward => { s with grad := ops.add s.grad (ops.grad s.theta b) }
   | .divGrad => { s with grad := ops.divk cfg.k s.grad }
   | .clip => { s with grad := ops.clip s.grad }
   | .optStep =>
     let r := ops.opt (lrAt s.epoch) s.theta s.ostate s.grad
     { s with theta := r.1, ostate := r.2 }
-  | .scalerUpdate => s
+  | .scalerUpdate => { s with scaler := ops.supd s.scaler }
   | .zeroGrad => { s with grad := ops.zero }
   | .schedStep => { s with epoch := s.epoch + 1 }
 
 /-- one iteration of the loop body, by interpretation of the statement table -/
-def iterT (t : LoopTable) (ops : Ops P O G B L) (lrAt : Nat → L) (cfg : Cfg) (s : St P O G Sc) (it : Nat) (b : B) :
+def iterT (t : LoopTable) (ops : Ops P O G B L Sc) (lrAt : Nat → L) (cfg : Cfg) (s : St P O G Sc) (it : Nat) (b : B) :
     St P O G Sc :=
   t.foldl (fun s eg => if eg.2.all (evalGuard cfg it) then applyEv ops lrAt cfg b s eg.1 else s) s
 
 /-- the loop body as it is now -/
-def iter (ops : Ops P O G B L) (lrAt : Nat → L) (cfg : Cfg) (s : St P O G Sc) (it : Nat) (b : B) : St P O G Sc :=
+def iter (ops : Ops P O G B L Sc) (lrAt : Nat → L) (cfg : Cfg) (s : St P O G Sc) (it : Nat) (b : B) : St P O G Sc :=
   iterT loopTable ops lrAt cfg s it b
 
-def iterPinned (ops : Ops P O G B L) (lrAt : Nat → L) (cfg : Cfg) (s : St P O G Sc) (it : Nat) (b : B) :
+def iterPinned (ops : Ops P O G B L Sc) (lrAt : Nat → L) (cfg : Cfg) (s : St P O G Sc) (it : Nat) (b : B) :
     St P O G Sc :=
   iterT loopTablePinned ops lrAt cfg s it b
 
 /-- iterations `a, a+1, …, a+n-1` with the batch of iteration `i` being `batch i` -/
-def runRangeT (t : LoopTable) (ops : Ops P O G B L) (lrAt : Nat → L) (cfg : Cfg) (batch : Nat → B)
+def runRangeT (t : LoopTable) (ops : Ops P O G B L Sc) (lrAt : Nat → L) (cfg : Cfg) (batch : Nat → B)
     (s : St P O G Sc) (a : Nat) : Nat → St P O G Sc
   | 0 => s
   | n + 1 => iterT t ops lrAt cfg (runRangeT t ops lrAt cfg batch s a n) (a + n) (batch (a + n))
 
-def runRange (ops : Ops P O G B L) (lrAt : Nat → L) (cfg : Cfg) (batch : Nat → B)
+def runRange (ops : Ops P O G B L Sc) (lrAt : Nat → L) (cfg : Cfg) (batch : Nat → B)
     (s : St P O G Sc) (a n : Nat) : St P O G Sc :=
   runRangeT loopTable ops lrAt cfg batch s a n
 
 /-- the OOM recovery branch of the loop (`RuntimeError("… out of memory …")` from `_do_iteration`, fewer than three in a
 row): `optimizer.zero_grad(); continue` — the iteration index is consumed, but there is no optimiser step, no
 `lr_scheduler.step()`, and whatever was accumulated in the current window is thrown away -/
-def oomSkip (ops : Ops P O G B L) (s : St P O G Sc) : St P O G Sc := { s with grad := ops.zero }
+def oomSkip (ops : Ops P O G B L Sc) (s : St P O G Sc) : St P O G Sc := { s with grad := ops.zero }
 
 /-- a run in which the iterations `i` with `oom i` hit the OOM recovery branch -/
-def runRangeO (ops : Ops P O G B L) (lrAt : Nat → L) (cfg : Cfg) (batch : Nat → B) (oom : Nat → Bool)
+def runRangeO (ops : Ops P O G B L Sc) (lrAt : Nat → L) (cfg : Cfg) (batch : Nat → B) (oom : Nat → Bool)
     (s : St P O G Sc) (a : Nat) : Nat → St P O G Sc
   | 0 => s
   | n + 1 =>
@@ -167,16 +174,16 @@ def runRangeO (ops : Ops P O G B L) (lrAt : Nat → L) (cfg : Cfg) (batch : Nat 
     if oom (a + n) then oomSkip ops s' else iter ops lrAt cfg s' (a + n) (batch (a + n))
 
 /-- the gradient accumulated in `.grad` right after `backward` -/
-def accum (ops : Ops P O G B L) (s : St P O G Sc) (b : B) : G := ops.add s.grad (ops.grad s.theta b)
+def accum (ops : Ops P O G B L Sc) (s : St P O G Sc) (b : B) : G := ops.add s.grad (ops.grad s.theta b)
 
 /-- what the optimiser is handed when the step branch is taken -/
-def received (ops : Ops P O G B L) (cfg : Cfg) (a : G) : G :=
+def received (ops : Ops P O G B L Sc) (cfg : Cfg) (a : G) : G :=
   let g := if cfg.k > 1 then ops.divk cfg.k a else a
   if cfg.clipOn then ops.clip g else g
 
 /-- the accumulated (undivided) gradients consumed by the optimiser steps of iterations `a … a+n-1`,
 most recent first -/
-def delivered (ops : Ops P O G B L) (lrAt : Nat → L) (cfg : Cfg) (batch : Nat → B)
+def delivered (ops : Ops P O G B L Sc) (lrAt : Nat → L) (cfg : Cfg) (batch : Nat → B)
     (s : St P O G Sc) (a : Nat) : Nat → List G
   | 0 => []
   | n + 1 =>
@@ -184,7 +191,7 @@ def delivered (ops : Ops P O G B L) (lrAt : Nat → L) (cfg : Cfg) (batch : Nat 
     if (a + n + 1) % cfg.k == 0 then accum ops (runRange ops lrAt cfg batch s a n) (batch (a + n)) :: rest else rest
 
 /-- the gradients produced by the `backward` calls of iterations `a … a+n-1`, most recent first -/
-def seen (ops : Ops P O G B L) (lrAt : Nat → L) (cfg : Cfg) (batch : Nat → B)
+def seen (ops : Ops P O G B L Sc) (lrAt : Nat → L) (cfg : Cfg) (batch : Nat → B)
     (s : St P O G Sc) (a : Nat) : Nat → List G
   | 0 => []
   | n + 1 => ops.grad (runRange ops lrAt cfg batch s a n).theta (batch (a + n)) :: seen ops lrAt cfg batch s a n
@@ -225,7 +232,7 @@ inductive Stop where
 deriving DecidableEq, Repr
 
 structure Run (P O G B L Sc : Type) where
-  ops : Ops P O G B L
+  ops : Ops P O G B L Sc
   lrAt : Nat → L
   cfg : Cfg
   batch : Nat → B
@@ -379,31 +386,43 @@ def sgd (mu : Rat) (lr : Rat) (w : Vec) (buf : Option Vec) (g : Vec) : Vec × Op
     | some v => vadd (vscale mu v) g
   (vadd w (vscale (-lr) nb), some nb)
 
-def ops (d : Nat) (mu : Rat) : Ops Vec (Option Vec) Vec Batch Rat where
+def ops (d : Nat) (mu : Rat) : Ops Vec (Option Vec) Vec Batch Rat Nat where
   grad := grad d
   add := vadd
   zero := List.replicate d 0
   divk k g := vscale (1 / (k : Rat)) g
   clip g := g
   opt := sgd mu
+  supd n := n + 1     -- the harness' scaler counts its `update()` calls
 
 /-- the toy with an **additional model** in `self.models`: parameters `w ++ v` (`d` each), prediction
-`x·w + x·v`, so both groups get the same gradient; `training_loop` divides only `self.model.parameters()` (the first
-`d` components) by `gradient_steps` -/
+`x·w + x·v`, so both groups get the same gradient; `training_loop` divides the gradients of `self.model` **and** of
+every model in `self.models` by `gradient_steps` (`opsAuxPinned`: the pinned tree divided only the first `d`) -/
 def gradAux (d : Nat) (θ : Vec) (b : Batch) : Vec :=
   let g := b.foldl (fun g (x, y) => vadd g (vscale (sign (dot x (θ.take d) + dot x (θ.drop d) - y)) x)) (List.replicate d 0)
   g ++ g
 
-def opsAux (d : Nat) (mu : Rat) : Ops Vec (Option Vec) Vec Batch Rat where
+def opsAux (d : Nat) (mu : Rat) : Ops Vec (Option Vec) Vec Batch Rat Nat where
+  grad := gradAux d
+  add := vadd
+  zero := List.replicate (2 * d) 0
+  divk k g := vscale (1 / (k : Rat)) g
+  clip g := g
+  opt := sgd mu
+  supd n := n + 1
+
+def opsAuxPinned (d : Nat) (mu : Rat) : Ops Vec (Option Vec) Vec Batch Rat Nat where
   grad := gradAux d
   add := vadd
   zero := List.replicate (2 * d) 0
   divk k g := vscale (1 / (k : Rat)) (g.take d) ++ g.drop d
   clip g := g
   opt := sgd mu
+  supd n := n + 1
 
-/-- Int instance with a main and an additional parameter group (same gradient for both): only the main group is divided -/
-def intOps2 : Ops (Int × Int) Unit (Int × Int) Int Int where
+/-- Int instance with a main and an additional parameter group (same gradient for both) as on the pinned tree: only
+the main group is divided -/
+def intOps2Pinned : Ops (Int × Int) Unit (Int × Int) Int Int Unit where
   grad _ b := (b, b)
   add a b := (a.1 + b.1, a.2 + b.2)
   zero := (0, 0)
@@ -413,7 +432,7 @@ def intOps2 : Ops (Int × Int) Unit (Int × Int) Int Int where
 
 /-- Int instance for the kernel-evaluated regression witnesses:
 `θ' = θ − lr·g`, `∇loss(θ, b) = b` (the batch is its own gradient), `div_` exact on multiples of `k` -/
-def intOps : Ops Int Unit Int Int Int where
+def intOps : Ops Int Unit Int Int Int Unit where
   grad _ b := b
   add := (· + ·)
   zero := 0
